@@ -458,3 +458,36 @@ End ExSrc.
 Print Assumptions C03_enc_read_authentic_src.
 Print Assumptions C03_reach_src_abs.
 Print Assumptions C03_example_enc_read_authentic_src.
+
+(* ---------- Tie A level 1, work package encW: what the TRANSLATED reader accepts is what the TRANSLATED writer wrote.  Over ANY
+   stream that behaves as a cursor over the bytes gen/Src3w.v's EncryptionLayerWriter (new; write_all of any pieces; finalize, with
+   the translated AesGcm256 of gen/Src3g.v) left after `base`, gen/Src3e.v's EncryptionLayerReader, instantiated with the cipher
+   parameters of the tie, behaves as a cursor over exactly the concatenation of the pieces ---------- *)
+From MLA Require SrcTie3EncW SrcTie3EncWCarry SrcTie3EncWEx.
+From MLAGen Require Src3w.
+Theorem C03_reader_refines_writer_src :
+  forall E, (forall k b, length b = 16%nat -> length (E k b) = 16%nat) ->
+  forall key prefix, len key = 32 -> len prefix = 8 ->
+  forall si sl gmul CHUNK CIPHERBUF, 0 < CHUNK -> forall is_interrupted, is_interrupted EState = false ->
+  forall ss base fuel pieces x,
+    SrcTie3EncW.src_archive E key prefix si sl gmul CHUNK CIPHERBUF is_interrupted ss base fuel pieces = Ok x ->
+  forall (S : Stream) (Rin : st S -> N -> Prop),
+    Refines S (dropN (len base) (Src3w.elw_inner bytes x)) Rin ->
+    nfull CHUNK (len (concat pieces)) + 2 < 2 ^ 32 ->
+    (len (concat pieces) / CHUNK + 1) * (CHUNK + 16) <= 2 ^ 64 - 1 -> len (concat pieces) < 2 ^ 63 ->
+  forall site_index rfuel,
+    Refines (SrcTie3EncC.EncReaderSrc S CHUNK 16 (SrcTie3EncW.ks_gcm E key prefix) (SrcTie3EncW.tagc_gcm E key prefix gmul) site_index rfuel)
+      (concat pieces)
+      (fun r p => Renc CHUNK 16 (SrcTie3EncW.ks_gcm E key prefix) (SrcTie3EncW.tagc_gcm E key prefix gmul) S (concat pieces) Rin
+                       (SrcTie3Enc.abs S r) p).
+Proof. exact SrcTie3EncWCarry.reader_refines_writer_src. Qed.
+Print Assumptions C03_reader_refines_writer_src.
+(* the tags of the tie's cipher are 16 bytes (the premise the reader theorems have on tagc) *)
+Theorem C03_tie_encw_tag_len :
+  forall E, (forall k b, length b = 16%nat -> length (E k b) = 16%nat) ->
+  forall key prefix gmul i c, len (SrcTie3EncW.tagc_gcm E key prefix gmul i c) = 16.
+Proof. exact SrcTie3EncWCarry.len_tagc. Qed.
+Print Assumptions C03_tie_encw_tag_len.
+(* non-vacuity: the translated writer run on concrete AES-256 / GHASH (three chunks, the premises hold) *)
+Check SrcTie3EncWEx.src_writer_three_chunks.
+Check SrcTie3EncWEx.src_writer_hyps.
